@@ -198,4 +198,185 @@ theorem dead_code_after_ret (sc : Scenario) (pre junk : List Stmt) :
   unfold runProg
   rw [execList_append, execList_append, key]
 
+/-! ### Structural theorems (mutual induction over the nested IR): they hold for *every* body, not just the table -/
+
+mutual
+theorem exec_prefix (sc : Scenario) : ∀ (x : Stmt) (s : St), s.trace <+: (exec sc s x).trace
+  | .entry, s => by simp [exec]
+  | .ifBlocked th, s => by
+      simp only [exec]
+      split
+      · exact execList_prefix sc th s
+      · exact List.prefix_refl _
+  | .fallback, s => by simp [exec]
+  | .ret, s => by simp [exec]
+  | .deferExit, s => by simp [exec]
+  | .exitNow, s => by simp only [exec]; split <;> simp
+  | .useEntry, s => by simp only [exec]; split <;> simp
+  | .callNext eb tr, s => by
+      simp only [exec]
+      split
+      · simp
+      · split
+        · split <;> simp [List.append_assoc]
+        · simp
+      · simp
+  | .unknown, s => by simp [exec]
+theorem execList_prefix (sc : Scenario) : ∀ (l : List Stmt) (s : St), s.trace <+: (execList sc s l).trace
+  | [], s => by simp [execList]
+  | x :: r, s => by
+      simp only [execList]
+      split
+      · exact List.prefix_refl _
+      · exact (exec_prefix sc x s).trans (execList_prefix sc r (exec sc s x))
+end
+
+theorem unwind_prefix (nil : Bool) : ∀ (n : Nat) (tr : List Ev), tr <+: unwind nil n tr
+  | 0, tr => by simp [unwind]
+  | n + 1, tr => by
+      simp only [unwind]
+      exact (List.prefix_append tr _).trans (unwind_prefix nil n _)
+
+theorem runProg_prefix (sc : Scenario) (x : Stmt) (rest : List Stmt) :
+    (exec sc {} x).trace <+: runProg sc (x :: rest) := by
+  unfold runProg
+  have h : execList sc {} (x :: rest) = execList sc (exec sc {} x) rest := by simp [execList]
+  rw [h]
+  exact (execList_prefix sc rest _).trans (unwind_prefix _ _ _)
+
+theorem head?_of_prefix {α} {a : α} {l m : List α} (h : l <+: m) (hl : l.head? = some a) : m.head? = some a := by
+  obtain ⟨t, rfl⟩ := h
+  cases l with
+  | nil => simp at hl
+  | cons b r => simpa using hl
+
+/-- whatever follows, a body whose first statement produces an event other than asking for the entry
+(handler call, fallback, exit, unknown construct …) does not conform in any scenario -/
+theorem first_event_must_be_entry (k : String) (sc : Scenario) (x : Stmt) (rest : List Stmt) (e : Ev)
+    (h : (exec sc {} x).trace.head? = some e) (he : e ≠ .entryAsked) :
+    conforms ⟨k, x :: rest⟩ sc = false := by
+  have hp := head?_of_prefix (runProg_prefix sc x rest) h
+  show conformsTrace sc (runProg sc (x :: rest)) = false
+  unfold conformsTrace
+  rw [hp]
+  have : (some e = some Ev.entryAsked) = False := by simp [he]
+  simp [this]
+
+theorem handler_before_entry_never_conforms (k : String) (sc : Scenario) (eb tr : Bool) (rest : List Stmt) :
+    conforms ⟨k, .callNext eb tr :: rest⟩ sc = false := by
+  apply first_event_must_be_entry k sc _ rest .handlerRun
+  · rcases sc with ⟨b, h⟩; cases h <;> cases eb <;> cases tr <;> simp [exec]
+  · decide
+
+theorem unwind_nil_mem : ∀ (n : Nat) (tr : List Ev), Ev.nilDeref ∈ unwind true (n + 1) tr
+  | 0, tr => by simp [unwind]
+  | n + 1, tr => by
+      have := unwind_nil_mem n (tr ++ [Ev.nilDeref])
+      simpa [unwind] using this
+
+/-- a deferred `Exit` still pending on a nil entry when the body ends panics: never conforms -/
+theorem pending_defer_on_nil_entry_never_conforms (k : String) (sc : Scenario) (body : List Stmt)
+    (hn : (execList sc {} body).entryNil = true) (hd : (execList sc {} body).deferred ≠ 0) :
+    conforms ⟨k, body⟩ sc = false := by
+  show conformsTrace sc (runProg sc body) = false
+  apply nilDeref_rejected
+  unfold runProg
+  obtain ⟨n, hn'⟩ := Nat.exists_eq_succ_of_ne_zero hd
+  simp only [hn, hn']
+  exact unwind_nil_mem n _
+
+mutual
+theorem exec_blocked_inv (sc : Scenario) (hb : sc.blocked = true) :
+    ∀ (x : Stmt) (s : St), s.entryNil = true → (exec sc s x).entryNil = true ∧ s.deferred ≤ (exec sc s x).deferred
+  | .entry, s, _ => by simp [exec, hb]
+  | .ifBlocked th, s, h => by
+      simp only [exec, hb, if_true]
+      exact execList_blocked_inv sc hb th s h
+  | .fallback, s, h => by simp [exec, h]
+  | .ret, s, h => by simp [exec, h]
+  | .deferExit, s, h => by simp [exec, h]
+  | .exitNow, s, h => by simp [exec, h]
+  | .useEntry, s, h => by simp [exec, h]
+  | .callNext eb tr, s, h => by
+      simp only [exec]
+      split
+      · simp [h]
+      · split
+        · split <;> simp [h]
+        · simp [h]
+      · simp [h]
+  | .unknown, s, h => by simp [exec, h]
+theorem execList_blocked_inv (sc : Scenario) (hb : sc.blocked = true) :
+    ∀ (l : List Stmt) (s : St), s.entryNil = true → (execList sc s l).entryNil = true ∧ s.deferred ≤ (execList sc s l).deferred
+  | [], s, h => by simp [execList, h]
+  | x :: r, s, h => by
+      simp only [execList]
+      split
+      · simp [h]
+      · have h1 := exec_blocked_inv sc hb x s h
+        have h2 := execList_blocked_inv sc hb r (exec sc s x) h1.1
+        exact ⟨h2.1, Nat.le_trans h1.2 h2.2⟩
+end
+
+/-- **ignoring the block result is never right**: a body that defers `Exit` straight after `Entry`, without
+testing the block error, fails every blocked scenario — whatever statements follow -/
+theorem unchecked_defer_never_conforms_blocked (k : String) (hd : Handler) (rest : List Stmt) :
+    conforms ⟨k, .entry :: .deferExit :: rest⟩ ⟨true, hd⟩ = false := by
+  have h0 : execList ⟨true, hd⟩ {} (.entry :: .deferExit :: rest) =
+      execList ⟨true, hd⟩ { trace := [.entryAsked], deferred := 1, entryNil := true, stopped := false } rest := by
+    simp [execList, exec]
+  have inv := execList_blocked_inv ⟨true, hd⟩ rfl rest
+    { trace := [.entryAsked], deferred := 1, entryNil := true, stopped := false } rfl
+  apply pending_defer_on_nil_entry_never_conforms
+  · rw [h0]; exact inv.1
+  · rw [h0]; have := inv.2; simp at this; omega
+
+theorem exec_admitted_plain (sc : Scenario) (hb : sc.blocked = false) (x : Stmt) (hx : plainStmt x = true) (s : St) :
+    (exec sc s x).deferred = s.deferred ∧ count .handlerRun (exec sc s x).trace = count .handlerRun s.trace := by
+  cases x with
+  | deferExit => simp [plainStmt] at hx
+  | callNext eb tr => simp [plainStmt] at hx
+  | ifBlocked th => simp [exec, hb]
+  | exitNow => simp only [exec]; split <;> simp [count]
+  | useEntry => simp only [exec]; split <;> simp [count]
+  | _ => simp [exec, count]
+
+theorem execList_admitted_plain (sc : Scenario) (hb : sc.blocked = false) :
+    ∀ (pre : List Stmt), (∀ x ∈ pre, plainStmt x = true) → ∀ s : St,
+      (execList sc s pre).deferred = s.deferred ∧ count .handlerRun (execList sc s pre).trace = count .handlerRun s.trace
+  | [], _, s => by simp [execList]
+  | x :: r, h, s => by
+      simp only [execList]
+      split
+      · simp
+      · have h1 := exec_admitted_plain sc hb x (h x (by simp)) s
+        have h2 := execList_admitted_plain sc hb r (fun y hy => h y (by simp [hy])) (exec sc s x)
+        exact ⟨h2.1.trans h1.1, h2.2.trans h1.2⟩
+
+/-- **panic safety needs `defer`**: if no `defer e.Exit()` precedes the (first) handler call, the admitted request
+whose handler panics is never exited properly — whatever comes before (tests, immediate exits, unknown constructs)
+and after the call -/
+theorem handler_panic_needs_defer (k : String) (pre post : List Stmt) (eb tr : Bool)
+    (hpre : ∀ x ∈ pre, plainStmt x = true) :
+    conforms ⟨k, pre ++ .callNext eb tr :: post⟩ ⟨false, .panic⟩ = false := by
+  show conformsTrace ⟨false, .panic⟩ (runProg ⟨false, .panic⟩ (pre ++ .callNext eb tr :: post)) = false
+  have hp := execList_admitted_plain ⟨false, .panic⟩ rfl pre hpre {}
+  unfold runProg
+  rw [execList_append]
+  generalize execList ⟨false, .panic⟩ {} pre = s1 at hp
+  have hd : s1.deferred = 0 := hp.1
+  have hc : count .handlerRun s1.trace = 0 := by simpa [count] using hp.2
+  by_cases hs : s1.stopped = true
+  · rw [execList_stopped _ _ _ hs]
+    simp only [hd, unwind]
+    unfold conformsTrace
+    simp [hc]
+  · have : execList ⟨false, .panic⟩ s1 (.callNext eb tr :: post) =
+        { s1 with trace := s1.trace ++ [.handlerRun], stopped := true } := by
+      simp [execList, hs, exec, execList_stopped]
+    rw [this]
+    simp only [hd, unwind]
+    unfold conformsTrace
+    simp
+
 end Sentinel.C19
